@@ -29,6 +29,11 @@ type pblk struct {
 	data []byte
 }
 
+// hashOf returns the multihash shared by the aliases (taken from the first textual CID)
+func (p pblk) hashOf() []byte {
+	return vh.UnHex(p.cids[0][strings.LastIndex(p.cids[0], ":")+1:])
+}
+
 func cidStr(ver int, codec uint64, h []byte) string {
 	return fmt.Sprintf("d:%d:%d:%s", ver, codec, vh.Hex(h))
 }
@@ -52,12 +57,18 @@ func mkPool(r *vh.Rand) (pool []pblk, ident []pblk) {
 			h, _ := mh.Sum(data, mh.SHA2_256, -1)
 			p.cids = []string{cidStr(0, cid.DagProtobuf, h), cidStr(1, cid.Raw, h), cidStr(1, cid.DagProtobuf, h)}
 		}
+		// aliases whose codec needs a multi-byte varint in the binary CID (>= 0x80): dag-json 0x0129,
+		// json 0x0200, car 0x0202, eth-block 0x90, a 3-byte one 0x4000 - same multihash as the others
+		wide := []uint64{cid.DagJSON, 0x0200, 0x0202, 0x90, 0x4000}
+		for _, j := range []int{r.Intn(len(wide)), r.Intn(len(wide))} {
+			p.cids = append(p.cids, cidStr(1, wide[j], p.hashOf()))
+		}
 		pool = append(pool, p)
 	}
 	for _, l := range []int{0, 40, r.Range(1, 20), 127, 128, 200} {
 		d := r.Bytes(l)
 		h, _ := mh.Sum(d, mh.IDENTITY, -1)
-		ident = append(ident, pblk{cids: []string{cidStr(1, cid.Raw, h), cidStr(1, cid.DagProtobuf, h)}, data: d})
+		ident = append(ident, pblk{cids: []string{cidStr(1, cid.Raw, h), cidStr(1, cid.DagProtobuf, h), cidStr(1, cid.DagJSON, h)}, data: d})
 		if len(ident) >= 3 && r.Chance(1, 2) {
 			break
 		}
